@@ -89,12 +89,16 @@ NoVars == [n \in Names |-> Absent]
 \* such an environment only: the argument values as passed, the parameter names, the number of MAPPED arguments
 \* venv: the variable environment that sloppy direct eval code adds its var declarations to (the function's, or the global one)
 \* th: the this value (meaningful in the environment of a non-arrow function call; arrows read it through fenv)
-Env(parent, vs, fenv, venv) == [parent |-> parent, vars |-> vs, fenv |-> fenv, venv |-> venv, args |-> <<>>, alen |-> 0, ps |-> <<>>, nmap |-> 0, th |-> Undef]
+\* wobj: the binding object of an object environment record (9.1.1.2, created by a with statement), 0 for declarative records
+Env(parent, vs, fenv, venv) == [parent |-> parent, vars |-> vs, fenv |-> fenv, venv |-> venv, args |-> <<>>, alen |-> 0, ps |-> <<>>, nmap |-> 0, th |-> Undef, wobj |-> 0]
 \* objects (literals with the keys a / b): [a, b |-> [k: "none" | "data" | "acc", v: the value, g / s: getter / setter function id, 0 = absent]]
 \* objs[1] is the global object (the this value of a sloppy function called without a receiver)
 PropNone == [k |-> "none", v |-> Undef, g |-> 0, s |-> 0]
 DataProp(v) == [k |-> "data", v |-> v, g |-> 0, s |-> 0]
-Store0 == [envs |-> <<Env(0, NoVars, 1, 1)>>, fns |-> <<>>, objs |-> <<[a |-> PropNone, b |-> PropNone]>>, log |-> <<>>, fuel |-> 400]    \* envs[1]: the global environment
+\* property keys: a, b, and x, y -- the latter coincide with variable names, so that an object can shadow variables in a with statement
+EmptyObj == [a |-> PropNone, b |-> PropNone, x |-> PropNone, y |-> PropNone]
+ObjKeys == {"a", "b", "x", "y"}
+Store0 == [envs |-> <<Env(0, NoVars, 1, 1)>>, fns |-> <<>>, objs |-> <<EmptyObj>>, log |-> <<>>, fuel |-> 400]    \* envs[1]: the global environment
 GlobalObj == Obj(1)
 
 Ok(st, v) == [st |-> st, c |-> [ty |-> "normal", v |-> v]]
@@ -106,7 +110,11 @@ Abrupt(r) == r.c.ty # "normal"
 
 \* 9.1.2.1 GetIdentifierReference: the environment that holds x, 0 = unresolvable
 RECURSIVE Resolve(_, _, _)
-Resolve(st, env, x) == IF env = 0 THEN 0 ELSE IF st.envs[env].vars[x].s # "absent" THEN env ELSE Resolve(st, st.envs[env].parent, x)
+Resolve(st, env, x) == IF env = 0 THEN 0
+                       ELSE IF st.envs[env].wobj # 0
+                       THEN (IF x \in ObjKeys /\ st.objs[st.envs[env].wobj][x].k # "none" THEN env ELSE Resolve(st, st.envs[env].parent, x))   \* HasProperty
+                       ELSE IF st.envs[env].vars[x].s # "absent" THEN env ELSE Resolve(st, st.envs[env].parent, x)
+NewWithEnv(st, parent, w) == [st EXCEPT !.envs = Append(@, [Env(parent, NoVars, st.envs[parent].fenv, st.envs[parent].venv) EXCEPT !.wobj = w])]
 
 NewEnv(st, parent, vs) == [st EXCEPT !.envs = Append(@, Env(parent, vs, st.envs[parent].fenv, st.envs[parent].venv))]
 \* the newest environment is a variable environment of its own (function body)
@@ -114,24 +122,11 @@ AsVarEnv(st) == [st EXCEPT !.envs[Len(st.envs)].venv = Len(st.envs)]
 \* the environment of a non-arrow function call: it is its own fenv
 NewFEnv(st, parent, vs, args, ps, nmap, th) ==
   [st EXCEPT !.envs = Append(@, [parent |-> parent, vars |-> vs, fenv |-> Len(st.envs) + 1, venv |-> Len(st.envs) + 1, args |-> args,
-                                  alen |-> Len(args), ps |-> ps, nmap |-> nmap, th |-> th])]
+                                  alen |-> Len(args), ps |-> ps, nmap |-> nmap, th |-> th, wobj |-> 0])]
 Top(st) == Len(st.envs)
 SetB(st, env, x, b) == [st EXCEPT !.envs[env].vars[x] = b]
 Init(v, m) == [s |-> "init", v |-> v, m |-> m]
 TDZ(m) == [s |-> "tdz", v |-> Undef, m |-> m]
-
-\* 6.2.5.5 GetValue on a resolved identifier reference
-GetRef(st, r, x) == IF r = 0 THEN Thr(st, RefErr)
-                    ELSE IF st.envs[r].vars[x].s = "tdz" THEN Thr(st, RefErr)
-                    ELSE Ok(st, st.envs[r].vars[x].v)
-\* 6.2.5.6 PutValue / 9.1.1.1.5 SetMutableBinding; r was resolved BEFORE the right-hand side was evaluated
-PutRef(st, r, x, v, strict) ==
-  IF r = 0 THEN (IF strict THEN Thr(st, RefErr) ELSE Ok(SetB(st, 1, x, Init(v, "mut")), v))        \* sloppy: a property of the global object
-  ELSE LET b == st.envs[r].vars[x] IN
-       IF b.s = "tdz" THEN Thr(st, RefErr)
-       ELSE IF b.m = "const" THEN Thr(st, TypeErr)
-       ELSE IF b.m = "fname" THEN (IF strict THEN Thr(st, TypeErr) ELSE Ok(st, v))
-       ELSE Ok(SetB(st, r, x, Init(v, "mut")), v)
 
 \* static semantics: VarDeclaredNames / LexicallyDeclaredNames / hoisted function declarations of a statement list
 RECURSIVE VarNames(_), VarNamesL(_, _)
@@ -141,6 +136,7 @@ VarNames(s) == CASE s.t = "var" -> {s.x}
                  [] s.t \in {"block", "if"} -> VarNamesL(s.k, IF s.t = "if" THEN 2 ELSE 1)
                  [] s.t = "for" -> (IF s.n = 1 THEN {s.x} ELSE {}) \cup VarNames(s.k[4])
                  [] s.t = "try" -> VarNamesL(s.k, 1)
+                 [] s.t = "with" -> VarNames(s.k[2])
                  [] s.t = "forof" -> (IF s.n = 1 THEN {s.x} ELSE {}) \cup VarNames(s.k[2])
                  [] s.t = "switch" -> VarNamesL(s.k, 2)
                  [] s.t = "case" -> VarNamesL(s.k, 2)
@@ -156,7 +152,7 @@ LexVars(l, base) == [n \in Names |-> IF \E i \in LexDecls(l) : n \in DeclTargets
 
 -----------------------------------------------------------------------------
 RECURSIVE EvalE(_, _, _, _), EvalS(_, _, _, _), EvalL(_, _, _, _, _), EvalArgs(_, _, _, _, _, _), CallFn(_, _, _, _),
-          EvalBlock(_, _, _, _), ForLoop(_, _, _, _, _), EvalProps(_, _, _, _, _, _), GetV(_, _, _), PutV(_, _, _, _, _), BindPat(_, _, _, _, _, _, _), HoistF(_, _, _, _, _), BindParams(_, _, _, _, _, _),
+          EvalBlock(_, _, _, _), ForLoop(_, _, _, _, _), EvalProps(_, _, _, _, _, _), GetV(_, _, _), PutV(_, _, _, _, _), GetRef(_, _, _), PutRef(_, _, _, _, _), BindPat(_, _, _, _, _, _, _), HoistF(_, _, _, _, _), BindParams(_, _, _, _, _, _),
           FindCase(_, _, _, _, _, _), RunCases(_, _, _, _, _), ForOf(_, _, _, _, _, _)
 
 \* closures: [p: parameter names, body: statement list, env, kind: "arrow" | "func" | "named", name, strict]
@@ -169,35 +165,35 @@ EvalE(e, env, st, sm) ==
     [] e.t = "ref" -> GetRef(st, Resolve(st, env, e.x), e.x)
     [] e.t = "typeof" -> (LET r == Resolve(st, env, e.x) IN
                           IF r = 0 THEN Ok(st, Num(2))
-                          ELSE LET g == GetRef(st, r, e.x) IN IF Abrupt(g) THEN g ELSE Ok(st, Num(TypeofCode(g.c.v))))
+                          ELSE LET g == GetRef(st, r, e.x) IN IF Abrupt(g) THEN g ELSE Ok(g.st, Num(TypeofCode(g.c.v))))
     [] e.t = "assign" -> (LET r == Resolve(st, env, e.x)
                               rv == EvalE(e.k[1], env, st, sm)
                           IN IF Abrupt(rv) THEN rv ELSE PutRef(rv.st, r, e.x, rv.c.v, sm))
     [] e.t = "addassign" -> (LET r == Resolve(st, env, e.x)
                                  old == GetRef(st, r, e.x)
                              IN IF Abrupt(old) THEN old
-                                ELSE LET rv == EvalE(e.k[1], env, st, sm) IN
+                                ELSE LET rv == EvalE(e.k[1], env, old.st, sm) IN
                                      IF Abrupt(rv) THEN rv ELSE PutRef(rv.st, r, e.x, ValAdd(old.c.v, rv.c.v), sm))
     [] e.t = "postinc" -> (LET r == Resolve(st, env, e.x)
                                old == GetRef(st, r, e.x)
                            IN IF Abrupt(old) THEN old
                               ELSE LET o == ToNum(old.c.v)
-                                       p == PutRef(st, r, e.x, Num(IF o = NaNv THEN NaNv ELSE o + 1), sm)
+                                       p == PutRef(old.st, r, e.x, Num(IF o = NaNv THEN NaNv ELSE o + 1), sm)
                                    IN IF Abrupt(p) THEN p ELSE Ok(p.st, Num(o)))
     \* 13.15.2 logical assignment: the right-hand side and the PutValue happen only if the left value does not short-circuit
     [] e.t = "logassign" -> (LET r == Resolve(st, env, e.x)
                                  old == GetRef(st, r, e.x)
                              IN IF Abrupt(old) THEN old
                                 ELSE IF (e.op = "or" /\ Truthy(old.c.v)) \/ (e.op = "and" /\ ~Truthy(old.c.v)) \/ (e.op = "nullish" /\ old.c.v.t # "undef")
-                                     THEN Ok(st, old.c.v)
-                                ELSE LET rv == EvalE(e.k[1], env, st, sm) IN
+                                     THEN Ok(old.st, old.c.v)
+                                ELSE LET rv == EvalE(e.k[1], env, old.st, sm) IN
                                      IF Abrupt(rv) THEN rv ELSE PutRef(rv.st, r, e.x, rv.c.v, sm))
     [] e.t = "incdec" -> (LET r == Resolve(st, env, e.x)             \* e.n: +1 / -1;  e.op: "pre" | "post"
                               old == GetRef(st, r, e.x)
                           IN IF Abrupt(old) THEN old
                              ELSE LET o == ToNum(old.c.v)
                                       nv == IF o = NaNv THEN NaNv ELSE o + e.n
-                                      p == PutRef(st, r, e.x, Num(nv), sm)
+                                      p == PutRef(old.st, r, e.x, Num(nv), sm)
                                   IN IF Abrupt(p) THEN p ELSE Ok(p.st, Num(IF e.op = "pre" THEN nv ELSE o)))
     [] e.t \in {"and", "or", "nullish"} ->
          (LET a == EvalE(e.k[1], env, st, sm) IN
@@ -212,7 +208,7 @@ EvalE(e, env, st, sm) ==
                             IF Abrupt(b) THEN b
                             ELSE Ok(b.st, Num(IF ToNum(a.c.v) = NaNv \/ ToNum(b.c.v) = NaNv THEN NaNv ELSE ToNum(a.c.v) - ToNum(b.c.v))))
     \* 13.2.5 object literal: properties in order, a getter is a function object created here
-    [] e.t = "objlit" -> (LET r == EvalProps(e.k, 1, env, st, sm, [a |-> PropNone, b |-> PropNone]) IN
+    [] e.t = "objlit" -> (LET r == EvalProps(e.k, 1, env, st, sm, EmptyObj) IN
                           IF Abrupt(r.r) THEN r.r
                           ELSE LET st2 == [r.r.st EXCEPT !.objs = Append(@, r.rec)] IN Ok(st2, Obj(Len(st2.objs))))
     [] e.t = "mget" -> (LET o == EvalE(e.k[1], env, st, sm) IN IF Abrupt(o) THEN o ELSE GetV(o.st, o.c.v, e.x))
@@ -229,7 +225,10 @@ EvalE(e, env, st, sm) ==
                         ELSE LET as == EvalArgs(e.k, 2, env, f.st, sm, <<>>) IN
                              IF Abrupt(as.r) THEN as.r
                              ELSE IF f.c.v.t # "fn" THEN Thr(as.r.st, TypeErr)
-                             ELSE CallFn(as.r.st, f.c.v.v, as.vals, Undef))
+                             \* (13.3.6.2: a callee found in an object environment record is called with that object as this -- WithBaseObject)
+                             ELSE CallFn(as.r.st, f.c.v.v, as.vals,
+                                         IF e.k[1].t = "ref" /\ Resolve(st, env, e.k[1].x) # 0 /\ st.envs[Resolve(st, env, e.k[1].x)].wobj # 0
+                                         THEN Obj(st.envs[Resolve(st, env, e.k[1].x)].wobj) ELSE Undef))
     \* 13.3.6 a call through a property reference: the base is the this value; GetValue (a getter may run) precedes the arguments,
     \* the callability check follows them
     [] e.t = "mcall" -> (LET o == EvalE(e.k[1], env, st, sm) IN
@@ -289,6 +288,21 @@ EvalE(e, env, st, sm) ==
                                                      IF i = e.n + 1 THEN r.c.v ELSE IF i <= Len(F.args) THEN F.args[i] ELSE Undef]
                                     IN Ok([r.st EXCEPT !.envs[fe].args = padded], r.c.v))
 
+\* 6.2.5.5 GetValue on a resolved identifier reference (an object environment record reads the property: a getter may run)
+GetRef(st, r, x) == IF r = 0 THEN Thr(st, RefErr)
+                    ELSE IF st.envs[r].wobj # 0 THEN GetV(st, Obj(st.envs[r].wobj), x)
+                    ELSE IF st.envs[r].vars[x].s = "tdz" THEN Thr(st, RefErr)
+                    ELSE Ok(st, st.envs[r].vars[x].v)
+\* 6.2.5.6 PutValue / 9.1.1.1.5 SetMutableBinding; r was resolved BEFORE the right-hand side was evaluated
+PutRef(st, r, x, v, strict) ==
+  IF r = 0 THEN (IF strict THEN Thr(st, RefErr) ELSE Ok(SetB(st, 1, x, Init(v, "mut")), v))        \* sloppy: a property of the global object
+  ELSE IF st.envs[r].wobj # 0 THEN PutV(st, Obj(st.envs[r].wobj), x, v, strict)                   \* 9.1.1.2.5: Set(bindingObject, N, V, S)
+  ELSE LET b == st.envs[r].vars[x] IN
+       IF b.s = "tdz" THEN Thr(st, RefErr)
+       ELSE IF b.m = "const" THEN Thr(st, TypeErr)
+       ELSE IF b.m = "fname" THEN (IF strict THEN Thr(st, TypeErr) ELSE Ok(st, v))
+       ELSE Ok(SetB(st, r, x, Init(v, "mut")), v)
+
 EvalProps(k, i, env, st, sm, rec) ==
   IF i > Len(k) THEN [r |-> Ok(st, Undef), rec |-> rec]
   ELSE LET pr == k[i] IN
@@ -307,6 +321,8 @@ EvalProps(k, i, env, st, sm, rec) ==
 GetV(st, v, key) ==
   IF v.t = "undef" THEN Thr(st, TypeErr)
   ELSE IF v.t # "obj" THEN Ok(st, Undef)
+  \* (the properties x / y of the global object are the global variables of those names: that identification is not modelled)
+  ELSE IF v = GlobalObj /\ key \in {"x", "y"} THEN Thr(st, Err(7777))
   ELSE LET pr == st.objs[v.v][key] IN
        IF pr.k = "none" THEN Ok(st, Undef) ELSE IF pr.k = "data" THEN Ok(st, pr.v)
        ELSE IF pr.g = 0 THEN Ok(st, Undef) ELSE CallFn(st, pr.g, <<>>, v)
@@ -317,6 +333,7 @@ PutV(st, b, key, v, strict) ==
   IF b.t = "undef" THEN Thr(st, TypeErr)
   ELSE IF b.t \in {"fn", "err"} THEN Thr(st, Err(7777))
   ELSE IF b.t # "obj" THEN (IF strict THEN Thr(st, TypeErr) ELSE Ok(st, v))
+  ELSE IF b = GlobalObj /\ key \in {"x", "y"} THEN Thr(st, Err(7777))
   ELSE LET pr == st.objs[b.v][key] IN
        IF pr.k \in {"none", "data"} THEN Ok([st EXCEPT !.objs[b.v][key] = DataProp(v)], v)
        ELSE IF pr.s = 0 THEN (IF strict THEN Thr(st, TypeErr) ELSE Ok(st, v))
@@ -481,6 +498,17 @@ EvalS(s, env, st, sm) ==
              ELSE LET b == BindPat(s.pat, 1, rv.c.v, env, rv.st, sm, IF s.t = "letp" THEN "let" ELSE IF s.t = "constp" THEN "const" ELSE "var") IN
                   IF Abrupt(b) THEN b ELSE Ok(b.st, Undef))
     [] s.t = "fdecl" -> Ok(st, Undef)                       \* instantiated on entry
+    \* 14.11 with (sloppy code only): ToObject(value) becomes the binding object of an object environment record; a primitive's wrapper
+    \* object has none of the modelled keys
+    [] s.t = "with" -> (LET o == EvalE(s.k[1], env, st, sm) IN
+                        IF Abrupt(o) THEN o
+                        ELSE IF o.c.v.t = "undef" THEN Thr(o.st, TypeErr)
+                        \* (a function object inherits the accessor `arguments` from Function.prototype, which shadows the arguments object: not modelled)
+                        ELSE IF o.c.v.t = "fn" \/ o.c.v = GlobalObj THEN Thr(o.st, Err(7777))
+                        ELSE LET st0 == IF o.c.v.t = "obj" THEN o.st ELSE [o.st EXCEPT !.objs = Append(@, EmptyObj)]
+                                 w == IF o.c.v.t = "obj" THEN o.c.v.v ELSE Len(st0.objs)
+                                 st1 == NewWithEnv(st0, env, w)
+                             IN EvalBlock(s.k[2].k, Top(st1), st1, sm))
     [] s.t = "block" -> EvalBlock(s.k, env, st, sm)
     [] s.t = "if" -> (LET c == EvalE(s.k[1], env, st, sm) IN
                       IF Abrupt(c) THEN c
